@@ -14,7 +14,7 @@ UNITS += [
 ]
 UNITS += [
   Unit("vf_splice_j%d_i%d" % (j, i), ["C19", "C03"], "lib/vorbisfile.c", enforce="_ov_splice", harness="h_vf_splice.c", entry="h_vf_splice",
-       kind="B", unwind=4, reach=0, timeout=900, defines=["VERIF_GJ=%d" % j, "VERIF_GI=%d" % i, "SPL_MAX=2"], smt_props=r"_ov_splice\.postcondition", shards=2,
+       kind="B", unwind=4, reach=0, timeout=900, defines=["VERIF_GJ=%d" % j, "VERIF_GI=%d" % i, "SPL_MAX=2"], smt_props=r"_ov_splice\.postcondition", shards=2, no_slice=True,
        bound="<= 2 channels on each side, lap sizes n1,n2 <= 2; every float (audio, lap data, both windows) symbolic; rows and windows sized exactly so any access beyond min(n1,n2) is out of bounds; output position (channel %d, sample %d)" % (j, i),
        note="cross-lap splice: squared-window cross-fade over min(n1,n2) with the window of that size, fade-in from silence for extra channels, nothing else modified")
   for j in (0, 1) for i in (0, 1)
